@@ -5,15 +5,17 @@ Require Import V.C47.Model V.C47.Proofs V.C47.Proofs2.
 Open Scope Z_scope.
 
 (* Over EVERY history of explicit / automatic creations (any class, any preface, any random-letter
-   oracle), Framer creations in a given house, Framer.clone (with its frames), House creations, Clear, ClearRegistries, assignRegistries and assignFrameRegistry
-   switches: every registry dict ever allocated holds pairwise distinct names, and every entry
-   registered so far (name -> instance) is still there, in place: nothing is ever overwritten. *)
+   oracle), Framer creations in a given house, Framer.clone (with its frames), Framer.prune, House
+   creations, Clear, ClearRegistries, assignRegistries and assignFrameRegistry switches: every registry
+   dict ever allocated holds pairwise distinct names; and over every continuation WITHOUT prune every
+   entry registered so far (name -> instance) is still there, in place: nothing is overwritten. *)
 Theorem names_unique_all_histories : forall ops,
   Forall nodupN (heap (run init ops)) /\
-  forall ops2 i, exists extra, nth i (heap (run (run init ops) ops2)) [] = nth i (heap (run init ops)) [] ++ extra.
+  forall ops2 i, forallb (fun x => negb (is_prune x)) ops2 = true ->
+    exists extra, nth i (heap (run (run init ops) ops2)) [] = nth i (heap (run init ops)) [] ++ extra.
 Proof.
-  exact (fun ops => conj (proj1 (run_good ops init init_hinv))
-           (fun ops2 => proj2 (run_good ops2 (run init ops) (proj1 (run_good ops init init_hinv))))).
+  exact (fun ops => conj (run_hinv ops init init_hinv)
+           (fun ops2 i B => proj2 (run_good ops2 (run init ops) B (run_hinv ops init init_hinv)) i)).
 Qed.
 Print Assumptions names_unique_all_histories.
 
@@ -114,6 +116,14 @@ Proof.
 Qed.
 Print Assumptions clone_house_switch_no_collision_reachable.
 
+(* An entry is only removed by the object that owns it: Framer.prune, in ANY state and whatever
+   namespace is current (e.g. another house's, holding a same-named live clone), removes at most the
+   entry (name, instance) of the pruned framer itself; every other entry of every registry stays. *)
+Theorem entry_removed_only_by_owner : forall s f i p, In p (nth i (heap s) []) ->
+  In p (nth i (heap (fst (step s (Prune f)))) []) \/ nth_error (finfo s) f = Some p.
+Proof. exact prune_only_owner. Qed.
+Print Assumptions entry_removed_only_by_owner.
+
 Theorem suffix_loop_never_exhausted : forall s x, snd (step s x) <> Some OutOfFuel.
 Proof. exact step_no_fuel. Qed.
 Print Assumptions suffix_loop_never_exhausted.
@@ -139,4 +149,14 @@ Example c47_clone_two_houses :
                      Assign 0; CreateFramerIn 0 (NStr [102]) [] []; Assign 1; CreateFramerIn 1 (NStr [102]) [] [];
                      Clone 0 [119] []; Assign 0; Clone 1 [119] []] in
   map fst (nth 6 (heap s) []) = [[102]; [119]] /\ map fst (nth 9 (heap s) []) = [[102]; [119]].
+Proof. vm_compute. split; reflexivity. Qed.
+
+(* house a razes its clone "w" while house b's namespace is current and holds b's own live clone "w":
+   b's entry stays, and an explicit duplicate "w" in house b is still rejected *)
+Example c47_prune_other_house_current :
+  let pre := [CreateHouse (NStr [97]) [] []; CreateHouse (NStr [98]) [] [];
+              Assign 0; CreateFramerIn 0 (NStr [102]) [] []; Assign 1; CreateFramerIn 1 (NStr [102]) [] [];
+              Clone 0 [119] []; Clone 1 [119] []; Prune 2] in
+  map fst (nth 9 (heap (run init pre)) []) = [[102]; [119]] /\
+  snd (step (run init pre) (CreateFramerIn 1 (NStr [119]) [] [])) = Some ErrParameter.
 Proof. vm_compute. split; reflexivity. Qed.
